@@ -90,6 +90,38 @@ func runC15(c *Ctx) {
 				}
 				c.Check(kept, r1, p.FuncKey(f)+":kept", p.InstrPos(call), "a key=value pair is stored", "the key/value pair of an environment entry is not stored when the split has two parts")
 			}
+			// key and value are stored exactly as split (byte for byte)
+			if ok2 {
+				exact := true
+				nMu := 0
+				AllInstrs(f, func(x ssa.Instruction) {
+					mu, isMu := x.(*ssa.MapUpdate)
+					if !isMu {
+						return
+					}
+					nMu++
+					for _, v := range []ssa.Value{mu.Key, mu.Value} {
+						if mi, isMi := v.(*ssa.MakeInterface); isMi {
+							v = mi.X
+						}
+						okv := false
+						switch y := stripConv(v).(type) {
+						case *ssa.UnOp:
+							if ia, isIa := y.X.(*ssa.IndexAddr); isIa && stripConv(ia.X) == ssa.Value(call) {
+								okv = true
+							}
+						case *ssa.Extract:
+							if y.Tuple == ssa.Value(call) {
+								okv = true
+							}
+						}
+						if !okv {
+							exact = false
+						}
+					}
+				})
+				c.Check(exact && nMu > 0, r1, p.FuncKey(f)+":unchanged", p.InstrPos(call), "key and value are stored exactly as split", "the key or value of an environment entry is transformed (trimmed, re-quoted ...) before it is stored: values are not preserved byte for byte, even those the later file does not mention")
+			}
 		})
 	}
 	if n1 == 0 {
@@ -344,6 +376,22 @@ func runC15(c *Ctx) {
 			return sc != nil && p.InRepo(sc) && p.Deep(StoreTo("WorkingDir", p.Field("types", "ProcessConfig", "WorkingDir"))).May(sc)
 		})
 		c.Check(len(wdCalls) > 0, r4, p.FuncKey(f)+":working-dirs", FirstPos(p, f), "parent working directories resolved", "the parent's relative/empty working directories are not resolved against the parent's directory")
+		fExt := p.Field("types", "Project", "ExtendsProject")
+		for _, wc := range wdCalls {
+			if sc := CallCommonOf(wc).StaticCallee(); sc == nil || len(DirectSites(sc, StoreTo("WorkingDir", p.Field("types", "ProcessConfig", "WorkingDir")))) == 0 {
+				continue
+			}
+			okDir := false
+			for _, a := range CallCommonOf(wc).Args {
+				if dc, isC := stripConv(a).(*ssa.Call); isC {
+					if o := CalleeObj(&dc.Call); o != nil && o.Pkg() != nil && o.Pkg().Path() == "path/filepath" && o.Name() == "Dir" && len(dc.Call.Args) == 1 && PathOf(dc.Call.Args[0]).LastField() == fExt {
+						okDir = true
+					}
+				}
+			}
+			c.Check(okDir, r4, p.FuncKey(f)+":working-dir-base", p.InstrPos(wc), "resolved against the directory of the extended (parent) file", "the parent's working directories are resolved against another directory than the parent file's own (filepath.Dir of the extends path): with parent and child in different directories the base's processes run in the wrong directory")
+			// and the project passed is the freshly loaded parent
+		}
 		// self-extension rejected
 		rej := false
 		AllInstrs(f, func(in ssa.Instruction) {
